@@ -103,6 +103,66 @@ def raises_catches(fn):
     return rs, cs
 
 
+def _terminates(stmts):
+    """every path through the statements ends in return / raise"""
+    if not stmts:
+        return False
+    last = stmts[-1]
+    if isinstance(last, (ast.Return, ast.Raise)):
+        return True
+    if isinstance(last, ast.If):
+        return bool(last.orelse) and _terminates(last.body) and _terminates(last.orelse)
+    if isinstance(last, ast.Try):
+        return (_terminates(last.body) or (bool(last.orelse) and _terminates(last.orelse))) and \
+            all(_terminates(h.body) for h in last.handlers)
+    return False
+
+
+def _guard_clauses(stmts):
+    """docstring/expr statements aside, only `if` statements, each without a trailing else that falls
+    through, each of whose branches terminates"""
+    seen = False
+    for st in stmts:
+        if isinstance(st, ast.Expr) and isinstance(getattr(st, 'value', None), ast.Constant):
+            continue
+        if not isinstance(st, ast.If):
+            return False
+        node = st
+        while True:
+            if not _terminates(node.body):
+                return False
+            if len(node.orelse) == 1 and isinstance(node.orelse[0], ast.If):
+                node = node.orelse[0]
+            elif node.orelse:
+                return False
+            else:
+                break
+        seen = True
+    return seen
+
+
+def _nest_guards(ifs):
+    import copy
+    flat = []
+    for st in ifs:
+        node = st
+        while True:
+            flat.append((node.test, node.body))
+            if len(node.orelse) == 1 and isinstance(node.orelse[0], ast.If):
+                node = node.orelse[0]
+            else:
+                break
+    top = None
+    for test, body in reversed(flat):
+        # a guard clause returns what the chain's fall-through `return target` returned: drop that tail
+        b = list(body)
+        if isinstance(b[-1], ast.Return) and ast.unparse(b[-1]) == 'return target' and len(b) > 1:
+            b = b[:-1]
+        top = ast.If(test=test, body=b, orelse=[top] if top is not None else [])
+    return ast.fix_missing_locations(top)
+
+
+
 def branch_label(test):
     """label of one test of _glom_match's if-chain"""
     src = ast.unparse(test)
@@ -152,11 +212,15 @@ def extract(ctx):
         P.add('_glom_match not found')
     else:
         ifs = [s for s in gm.body if isinstance(s, ast.If)]
-        if len(ifs) != 1 or not (isinstance(gm.body[-1], ast.Return)
-                                 and ast.unparse(gm.body[-1]) == 'return target'):
-            P.add('_glom_match: expected one if-chain followed by `return target`')
-        else:
+        ends_ok = isinstance(gm.body[-1], ast.Return) and ast.unparse(gm.body[-1]) == 'return target'
+        if len(ifs) == 1 and ends_ok:
             top_if = ifs[0]
+        elif ends_ok and len(ifs) > 1 and _guard_clauses(gm.body[:-1]):
+            # the same chain written as guard clauses (`if test: …; return/raise` one after the other):
+            # re-nest it as if/elif so that the branch table below reads it the same way
+            top_if = _nest_guards([s for s in gm.body[:-1] if isinstance(s, ast.If)])
+        else:
+            P.add('_glom_match: expected one if-chain followed by `return target`')
     if top_if is not None:
         for test, body in if_chain(top_if):
             if test is None:
